@@ -7,6 +7,7 @@ import common
 ID = "C13"
 LEVEL = "proof"
 PROPS = "Props/C13.vo"
+USES_TRANSLATOR = True      # coq/gen/GenIP.v (harness/translate.py) is part of this property's model
 MODEL_TARGETS = ["Corr/C13.vo"]
 OBLIGATION_FILES = ["Props/C13.v", "gen/GenOK13.v"]
 _M = ["__eq__", "__ne__", "__lt__", "__gt__", "__hash__", "__add__", "__sub__", "prefixlen", "masklen", "network_offset"]
@@ -182,19 +183,20 @@ def run_set(c):
     h0 = hash(x)                      # hashed once before the change (a cached hash must not survive it)
     try:
         setattr(x, c["name"], c["arg"])
-        r = [int(x.as_decimal), int(x.prefixlen)]
+        r = [int(x.as_decimal), int(x.prefixlen), int(x.as_decimal_network)]
     except BaseException:
         return None
     # the changed object against an independently built object of the same (address, prefix length)
     y = _mk(c["W"], r[0], r[1])
     if not (x == y and y == x and hash(x) == hash(y) and not (x != y)):
-        return [-7, -7]               # never agrees with the model: eq/hash broken after a setter
+        return [-7, -7, -7]           # never agrees with the model: eq/hash broken after a setter
     return r
 
 
 def lit_set(c, o):
     z = common.zlit
-    return "(%d, %s, %d, %d, %s, %s)" % (c["W"], z(c["a"]), c["p"], c["kind"], z(c["arg"]), lit_opt(o))
+    ol = "None" if o is None else "(Some (%s, %s, %s))" % (z(o[0]), z(o[1]), z(o[2]))
+    return "(%d, %s, %d, %d, %s, %s)" % (c["W"], z(c["a"]), c["p"], c["kind"], z(c["arg"]), ol)
 
 
 def nt_set(c, o):
@@ -236,7 +238,7 @@ STREAMS = [
            describe=lambda c, o: {"x": _fmt(c["W"], c["a"], c["pa"]), "y": _fmt(c["W"], c["b"], c["pb"]), "flags lt+2gt+4eq+8ne+16hasheq": o}),
     Stream("arith", gen_arith, run_arith, lit_arith, PRE, "Z * Z * Z * Z * Z * option (Z * Z)", "agree13arith", show="model13arith", nontrivial=nt_arith,
            describe=lambda c, o: {"obj": _fmt(c["W"], c["a"], c["p"]), "op": "+-"[c["op"]], "n": c["n"], "impl": o}),
-    Stream("setters", gen_set, run_set, lit_set, PRE, "Z * Z * Z * Z * Z * option (Z * Z)", "agree13set", show="model13set", nontrivial=nt_set,
+    Stream("setters", gen_set, run_set, lit_set, PRE, "Z * Z * Z * Z * Z * option (Z * Z * Z)", "agree13set", show="model13set", nontrivial=nt_set,
            describe=lambda c, o: {"obj": _fmt(c["W"], c["a"], c["p"]), "setter": c["name"], "arg": c["arg"], "impl": o}),
     Stream("sorted", gen_sort, run_sort, lit_sort, PRE, "Z * list (Z * Z) * list (Z * Z)", "agree13sort", show="model13sort",
            nontrivial=lambda c, o: (c["W"], tuple(map(tuple, c["objs"]))) if len(c["objs"]) >= 3 else None,
